@@ -9,9 +9,9 @@ use serde_json::Value;
 pub mod c01;
 mod c02;
 mod c03;
-mod c04;
+pub mod c04;
 mod c05;
-mod c06;
+pub mod c06;
 mod c07;
 mod c08;
 mod c09;
@@ -23,6 +23,7 @@ mod c16;
 mod c17;
 mod c18;
 mod c19;
+mod c20;
 pub mod expand;
 
 /// Writes events (with outcomes) into shards of bounded size; every shard starts with the cfg event.
@@ -183,6 +184,7 @@ pub fn drive(prop: &str, tier: &str, seed: u64, outdir: &str) -> u64 {
         "C17" => c17::drive(&mut tr, &mut rng, thorough),
         "C18" => c18::drive(&mut tr, &mut rng, thorough),
         "C19" => c19::drive(&mut tr, &mut rng, thorough),
+        "C20" => c20::drive(&mut tr, &mut rng, thorough),
         _ => panic!("no driver for {}", prop),
     }
     tr.finish();
